@@ -30,6 +30,8 @@ type C03Case struct {
 	// Prior: a packaging call of the same configuration that FAILS (signing callback fails / destination
 	// writer fails) is made first in the same process
 	Prior string `json:"prior,omitempty"`
+	// Changelog: "" | small | big - a changelog is configured (deb ships it gzipped in the payload, rpm in header tags)
+	Changelog string `json:"changelog,omitempty"`
 }
 
 var c03Items = []string{"f5000", "f0", "dir", "symlink", "f1", "f1023", "f1024", "config", "ghost", "big", "mut", "disklink"}
@@ -190,6 +192,16 @@ func init() {
 					}
 				}
 			}
+			// a changelog: deb ships it gzipped inside the payload (sizes count what is shipped)
+			for _, cl := range []string{"small", "big"} {
+				for _, shape := range [][]string{nil, {"f1"}, {"f5000", "dir"}, {"f1023", "symlink", "config"}} {
+					for _, s := range sets {
+						if !yield(C03Case{Shape: shape, Setting: s, Changelog: cl}) {
+							return
+						}
+					}
+				}
+			}
 			// a failed packaging call first (signer fails / destination fails), then the judged build
 			for _, prior := range []string{"signer-fails", "write-fails"} {
 				for _, shape := range [][]string{{"f5000"}, {"f5000", "config"}, {"big", "f1"}, nil} {
@@ -249,7 +261,14 @@ func checkC03(env *engine.Env, ci any) engine.Outcome {
 	for i, it := range c.Shape {
 		list = append(list, c03Entry(it, i, c.Name))
 	}
-	text := c.Setting.doc(list, t.Root).YAML()
+	doc := c.Setting.doc(list, t.Root)
+	switch c.Changelog {
+	case "small":
+		doc["changelog"] = t.P("changelog.yaml")
+	case "big":
+		doc["changelog"] = t.P("changelog-big.yaml")
+	}
+	text := doc.YAML()
 	formats := Formats
 	if c.Setting.Only != "" {
 		formats = []string{c.Setting.Only}
@@ -307,7 +326,7 @@ func checkC03(env *engine.Env, ci any) engine.Outcome {
 		}
 		keys = append(keys, f+":"+k)
 	}
-	out.Key = c.Prior + "|" + strings.Join(keys, "|")
+	out.Key = c.Prior + "|" + c.Changelog + "|" + strings.Join(keys, "|")
 	return out
 }
 
